@@ -205,13 +205,20 @@ pub fn drive_c14(a: &Args, out: &mut Out) {
     }
     // more distinct tokens than a narrow integer type can number (the ids must not wrap):
     // the last old token collides with the id of token 0 if ids are u8 / u16
-    for &distinct in &[256usize, 65536] {
+    for &distinct in &[256usize, 65536, 0] {
         let mut x = String::new();
         for k in 0..distinct {
             x.push_str(&format!("l{}\n", k));
         }
-        let y = format!("{}l0\n", x);
+        let mut y = format!("{}l0\n", x);
         x.push_str("A\n");
+        if distinct == 0 {
+            // both sides below 65 536 tokens, together more than 65 536 distinct ones:
+            // 1 500 rewritten head lines in front of 63 000 common lines
+            let tail: String = (0..63_000).map(|k| format!("t{}\n", k)).collect();
+            x = (0..1500).map(|k| format!("a{}\n", k)).collect::<String>() + &tail;
+            y = (0..1500).map(|k| format!("b{}\n", k)).collect::<String>() + &tail;
+        }
         for alg in ALGS {
             let case = out.next_case();
             let mut v = textops_record::<str>(case, alg, "lines", "str", -1, &x, &y);
